@@ -94,3 +94,67 @@ Proof.
   - cbn [bind rev app]. reflexivity.
   - rewrite tti_blocks_length. lia.
 Qed.
+
+(* ---- the same assembly for the teletext display standards (rows through rows_ttx) ---- *)
+Section DocTtx.
+  Variable rows_repr : witem -> Prop.
+  Variable expected_lines : witem -> list (list erun).
+  Hypothesis rows_roundtrip : forall i, rows_repr i ->
+    rows_ttx (split_byte 138 (text_field i)) None [] = (expected_lines i, None).
+
+  (* under the teletext standards the writer clamps the vertical position to 1..23 *)
+  Definition item_repr_ttx (fps : Z) (dsc : str) (tcp : Z) (i : witem) : Prop :=
+    rows_repr i /\ frame_instant fps (wi_st i + tcp) /\ frame_instant fps (wi_en i + tcp) /\
+    match wi_vp i with Some v => 0 <= v < 256 /\ (closed_dsc dsc = true -> 1 <= v <= 23) | None => True end.
+
+  Lemma new_tti_repr_ttx fps dsc tcp i idx : item_repr_ttx fps dsc tcp i -> 0 <= idx < 65536 -> tti_repr fps dsc tcp (new_tti i idx).
+  Proof.
+    intros (_ & Hin & Hout & Hvp) Hidx. unfold new_tti. constructor; cbn [t_cf t_cs t_jc t_ebn t_sgn t_sn t_vp t_in t_out]; try lia; try assumption.
+    - apply jc_of_byte.
+    - destruct (wi_vp i); lia.
+    - intros H. destruct (wi_vp i); [apply Hvp; exact H | lia].
+  Qed.
+
+  Lemma tti_loop_written_ttx g tcp : (g_fps g = 25 \/ g_fps g = 30) -> str_eqb (g_dsc g) stl_s_dscOpen = false ->
+    forall items idx fuel ritems,
+    (length items < fuel)%nat -> 0 <= idx -> idx + Z.of_nat (length items) <= 65536 ->
+    Forall (item_repr_ttx (g_fps g) (g_dsc g) tcp) items ->
+    tti_loop fuel (tti_blocks (g_fps g) (g_dsc g) tcp items idx) g tcp None ritems
+    = Ok (rev ritems ++ map (fun i => expected_item g (expected_lines i) i) items).
+  Proof.
+    intros Hfps Hdsc. induction items as [|i r IH]; intros idx fuel ritems Hfuel Hidx Hmax Hall.
+    - destruct fuel; [cbn [length] in Hfuel; lia|]. cbn [tti_blocks map]. rewrite tti_loop_eof, app_nil_r. reflexivity.
+    - destruct fuel as [|fuel]; [cbn [length] in Hfuel; lia|]. cbn [length] in Hfuel, Hmax.
+      inversion Hall as [|? ? Hi Hr]; subst. cbn [tti_blocks tti_loop].
+      destruct (read_n_block 128 (tti_bytes (g_fps g) (g_dsc g) tcp (new_tti i idx)) (tti_blocks (g_fps g) (g_dsc g) tcp r (idx + 1))
+                  (tti_bytes_length _ _ _ _)) as (cs & R).
+      assert (Hix : 0 <= idx < 65536) by lia.
+      rewrite R. rewrite (tti_roundtrip (g_fps g) (g_dsc g) tcp (new_tti i idx) Hfps (new_tti_repr_ttx (g_fps g) (g_dsc g) tcp i idx Hi Hix)).
+      cbn [t_ebn new_tti t_text]. change (255 =? 254) with false. cbv iota.
+      rewrite Hdsc. fold (text_field i). destruct Hi as (Hrows & _).
+      rewrite (rows_roundtrip i Hrows).
+      rewrite (IH (idx + 1) fuel) by (try lia; assumption).
+      cbn [rev map]. rewrite <- app_assoc. cbn [app]. f_equal. f_equal. f_equal.
+      unfold item_of, expected_item. cbn [t_in t_out t_jc t_vp new_tti]. f_equal; lia.
+  Qed.
+End DocTtx.
+
+Theorem read_written_ttx_gen (rows_repr : witem -> Prop) (expected_lines : witem -> list (list erun))
+  (rows_roundtrip : forall i, rows_repr i -> rows_ttx (split_byte 138 (text_field i)) None [] = (expected_lines i, None))
+  now md items :
+  let g := new_gsi now md items in
+  items <> [] -> Z.of_nat (length items) < 65536 ->
+  parse_gsi (gsi_bytes g) = Ok g ->
+  (g_fps g = 25 \/ g_fps g = 30) -> str_eqb (g_dsc g) stl_s_dscOpen = false ->
+  Forall (item_repr_ttx rows_repr (g_fps g) (g_dsc g) (g_tcp g)) items ->
+  read_stl false (written now md items) = Ok (rdoc_of g (map (fun i => expected_item g (expected_lines i) i) items)).
+Proof.
+  intros g Hne Hlen Hgsi Hfps Hdsc Hall. unfold read_stl, written. fold g.
+  destruct (read_n_block 1024 (gsi_bytes g) (tti_blocks (g_fps g) (g_dsc g) (g_tcp g) items 1) (gsi_bytes_length g)) as (cs & R).
+  rewrite R, Hgsi. cbn [bind].
+  assert (Hcct : g_cct g = stl_c_cctLatin) by (unfold g, new_gsi; destruct md; reflexivity).
+  rewrite Hcct. change (negb (nmem stl_c_cctLatin stl_tables_existing)) with false. cbv iota.
+  rewrite (tti_loop_written_ttx rows_repr expected_lines rows_roundtrip g (g_tcp g) Hfps Hdsc items 1 _ []); try assumption; try lia.
+  - cbn [bind rev app]. reflexivity.
+  - rewrite tti_blocks_length. lia.
+Qed.
